@@ -792,8 +792,18 @@ fn check_demux_sip(case: &SipCase, out: &mut CaseOut) {
     }
 }
 
+fn seed_corpus_stun(dir: &std::path::Path) {
+    for (i, m) in sample_strategy(&gen::message(), 3, 150).into_iter().enumerate() {
+        let _ = std::fs::write(dir.join(format!("msg-{i:03}")), crate::refmodel::ref_stun::encode(&m));
+    }
+    for (i, m) in sample_strategy(&gen::protected_message(), 4, 100).into_iter().enumerate() {
+        let _ = std::fs::write(dir.join(format!("prot-{i:03}")), crate::refmodel::ref_stun::encode(&m));
+    }
+}
+
 pub fn property() -> Property {
     Property {
+        fuzz: vec![FuzzStage { target: "stun", runs: 2_000_000, max_len: 2048, seed_corpus: seed_corpus_stun }],
         id: "C20",
         rule: "codec sub-checks: a case is a typed Binding message (class, 96-bit id, <=6 distinct attributes, \
                optional MESSAGE-INTEGRITY/-SHA256/FINGERPRINT tail) plus builder mode; non-trivial iff it has >=1 address \
